@@ -1,30 +1,39 @@
 """C06 Multiply-driven bits and combinational loops are rejected; legal designs are not."""
 import itertools
+import json
 
 from .. import instrument
 from ..common import derive_rng, fp, exc_origin
 
 PROPERTY = "C06"
 LEVEL = "exploration"
-RULE = ("driver plans: hierarchies of 1-6 modules, 1-4 signals of width 1-8, 2-6 drivers each a bit range "
-        "assigned from a (module, domain in {comb, sync, fast}) pair or driven by a foreign instance output; "
-        "half are legal near-misses (bit-disjoint ranges from different modules/domains, repeated "
-        "assignment from the same module and domain, adjacent ranges), half have a planted overlap; "
-        "expected: driver-conflict error (DriverConflict, or the Module DSL's driver-driver SyntaxError) "
-        "iff some bit has two different drivers. dependency plans: comb assignments over <= 14 signal "
-        "bits through slices, Cat, ~ & | ^, Mux (data and select), If conditions, and word-level + / - / "
-        "== / any(); the oracle computes the true bit-level dependency graph (carry chains: result bit "
-        "k depends on operand bits <= k) and the conservative one (word-level cells all-to-all): a "
-        "design cyclic in the true graph must raise CombinationalCycle, one acyclic in the conservative "
-        "graph must convert; designs on which the two readings differ are not generated. enumerate: all "
-        "driver plans of 2 drivers x a 3-bit signal x {same, different module} x {comb, sync, fast}. "
-        "distinct/non-trivial = distinct plans with >= 2 drivers or >= 2 dependency edges.")
+RULE = ("driver plans: hierarchies of 1-6 modules (sub-modules optionally wrapped in ResetInserter, EnableInserter or "
+        "DomainRenamer), 1-4 signals of width 1-8, 2-6 drivers each a bit range assigned from a (module, domain in "
+        "{comb, sync, fast}) pair or driven by an Instance output, a memory read port or an I/O buffer input; the "
+        "assignment target is written as a plain slice, a slice of a wider slice, a slice of as_signed()/as_unsigned() "
+        "of a wider slice, or a Cat of such targets (nesting <= 2); half are legal near-misses (bit-disjoint ranges "
+        "from different modules/domains, repeated assignment from the same module and domain, adjacent ranges), half "
+        "have a planted overlap; expected: driver-conflict error (DriverConflict, or the Module DSL's driver-driver "
+        "SyntaxError) iff some bit has two different drivers. dependency plans: comb assignments over <= 14 signal "
+        "bits through slices, Cat, ~ & | ^, Mux (data and select), If / If-Else, several assignments to the same bit "
+        "in program order ('default, then override'), and word-level + / - / == / any(); the oracle computes the true "
+        "bit-level dependency graph (carry chains: result bit k depends on operand bits <= k; an unconditional "
+        "assignment or If/Else pair replaces what earlier assignments to that bit contributed) and the conservative "
+        "one (word-level cells all-to-all, union over every assignment): a design cyclic in the true graph must raise "
+        "CombinationalCycle, one acyclic in the conservative graph must convert; designs on which the two readings "
+        "differ are counted and not judged. bit-ladder plans: bits of the same signals feed each other through "
+        "per-bit operators along a random total order (acyclic by construction), half with one operand bit replaced "
+        "by an arbitrary driven bit. enumerate: all driver plans of 2 drivers x a 3-bit signal x {same, different "
+        "module} x {comb, sync, fast}^2 x {logic, instance, memory port, I/O buffer}. distinct/non-trivial = distinct "
+        "plans with >= 2 drivers or >= 2 assignments.")
 ASSUMPTIONS = ["a conditional assignment makes every assigned bit depend on every bit the condition depends on",
                "dynamic part-select targets and flip-flops clocked from their own outputs are not generated"]
 REQUIRED_MONITORS = []
 MIN_NONTRIVIAL = {"quick": 1000, "thorough": 10000}
 NSHARDS = 16
 DOMS = ["comb", "sync", "fast"]
+FOREIGN = ["inst", "mem", "iob"]
+WRAPS = ["reset", "enable", "rename"]
 
 
 def classify(ex):
@@ -52,11 +61,11 @@ def gen_driver_plan(rng):
         s = rng.randrange(nsig)
         lo = rng.randrange(widths[s])
         hi = rng.randrange(lo + 1, widths[s] + 1)
-        kind = "inst" if rng.random() < 0.12 else "logic"
+        kind = rng.choice(FOREIGN) if rng.random() < 0.15 else "logic"
         drivers.append({"sig": s, "lo": lo, "hi": hi, "mod": rng.randrange(nmod), "dom": rng.choice(DOMS), "kind": kind})
     # resolve: make the plan legal first (clip away overlaps of different drivers), then plant one
     def ident(d, k):
-        return ("inst", k) if d["kind"] == "inst" else (d["mod"], d["dom"])
+        return ("foreign", k) if d["kind"] != "logic" else (d["mod"], d["dom"])
     owner = {}
     legal = []
     for k, d in enumerate(drivers):
@@ -75,7 +84,8 @@ def gen_driver_plan(rng):
         for b in run:
             owner[(d["sig"], b)] = ident(d, k)
         legal.append(d)
-    plan = {"tree": tree, "widths": widths, "drivers": legal, "planted": None}
+    wraps = [None] + [rng.choice(WRAPS) if rng.random() < 0.35 else None for _ in range(1, nmod)]
+    plan = {"tree": tree, "widths": widths, "drivers": legal, "planted": None, "wraps": wraps}
     if want_conflict and legal:
         victim = rng.choice(legal)
         b = rng.randrange(victim["lo"], victim["hi"])
@@ -83,19 +93,56 @@ def gen_driver_plan(rng):
         hi = rng.randrange(b + 1, min(widths[victim["sig"]], b + 2) + 1)
         while True:
             nd = {"sig": victim["sig"], "lo": lo, "hi": hi, "mod": rng.randrange(nmod), "dom": rng.choice(DOMS),
-                  "kind": "inst" if rng.random() < 0.15 else "logic"}
-            if nd["kind"] == "inst" or victim["kind"] == "inst" or (nd["mod"], nd["dom"]) != (victim["mod"], victim["dom"]):
+                  "kind": rng.choice(FOREIGN) if rng.random() < 0.15 else "logic"}
+            if nd["kind"] != "logic" or victim["kind"] != "logic" or (nd["mod"], nd["dom"]) != (victim["mod"], victim["dom"]):
                 break
         plan["drivers"] = legal + [nd]
         plan["planted"] = len(legal)
         rng.shuffle(plan["drivers"])
+    for d in plan["drivers"]:
+        d["form"] = gen_form(rng, d["lo"], d["hi"], widths[d["sig"]], 2)
     return plan
+
+
+def gen_form(rng, lo, hi, width, depth):
+    """A way of writing the assignment target that denotes bits [lo, hi) of the signal: a plain slice, a slice of
+    a (signedness cast of a) wider slice, or a concatenation of two such targets."""
+    k = rng.random()
+    if depth == 0 or k < 0.45:
+        return ["plain"]
+    olo, ohi = rng.randrange(0, lo + 1), rng.randrange(hi, width + 1)
+    if k < 0.7:
+        return ["cast", rng.choice("su"), olo, ohi, gen_form(rng, olo, ohi, width, depth - 1)]
+    if k < 0.85:
+        return ["nest", olo, ohi, gen_form(rng, olo, ohi, width, depth - 1)]
+    if hi - lo >= 2:
+        mid = rng.randrange(lo + 1, hi)
+        return ["cat", mid, gen_form(rng, lo, mid, width, depth - 1), gen_form(rng, mid, hi, width, depth - 1)]
+    return ["plain"]
+
+
+def build_target(sig, lo, hi, form):
+    from amaranth.hdl import Cat
+    if form[0] == "plain":
+        return sig[lo:hi]
+    if form[0] == "cast":
+        _, sgn, olo, ohi, sub = form
+        base = build_target(sig, olo, ohi, sub)
+        base = base.as_signed() if sgn == "s" else base.as_unsigned()
+        return base[lo - olo:hi - olo]
+    if form[0] == "nest":
+        _, olo, ohi, sub = form
+        return build_target(sig, olo, ohi, sub)[lo - olo:hi - olo]
+    if form[0] == "cat":
+        _, mid, f1, f2 = form
+        return Cat(build_target(sig, lo, mid, f1), build_target(sig, mid, hi, f2))
+    raise KeyError(form[0])
 
 
 def plan_conflicts(plan):
     owner = {}
     for k, d in enumerate(plan["drivers"]):
-        idn = ("inst", k) if d["kind"] == "inst" else (d["mod"], d["dom"])
+        idn = ("foreign", k) if d["kind"] != "logic" else (d["mod"], d["dom"])
         for b in range(d["lo"], d["hi"]):
             o = owner.setdefault((d["sig"], b), idn)
             if o != idn:
@@ -104,22 +151,46 @@ def plan_conflicts(plan):
 
 
 def build_driver_plan(plan):
-    from amaranth.hdl import Module, Signal, ClockDomain, Instance
+    from amaranth.hdl import Module, Signal, ClockDomain, Instance, Const, IOPort
+    from amaranth.hdl import ResetInserter, EnableInserter, DomainRenamer
+    from amaranth.hdl._mem import MemoryInstance, MemoryData
+    from amaranth.hdl._ir import IOBufferInstance
     nmod = len(plan["tree"])
     mods = [Module() for _ in range(nmod)]
-    for k in range(1, nmod):
-        setattr(mods[plan["tree"][k]].submodules, f"m{k}", mods[k])
-    mods[0].domains.sync = ClockDomain("sync")
-    mods[0].domains.fast = ClockDomain("fast")
     sigs = [Signal(w, name=f"s{i}") for i, w in enumerate(plan["widths"])]
     src = Signal(8, name="src")
+    ctl = Signal(name="ctl")
+    ports = sigs + [src, ctl]
     for k, d in enumerate(plan["drivers"]):
-        tgt = sigs[d["sig"]][d["lo"]:d["hi"]]
+        tgt = build_target(sigs[d["sig"]], d["lo"], d["hi"], d.get("form", ["plain"]))
+        n = d["hi"] - d["lo"]
         if d["kind"] == "inst":
             mods[d["mod"]].submodules += Instance("prim", o_q=tgt, i_d=src)
+        elif d["kind"] == "mem":
+            mem = MemoryInstance(data=MemoryData(shape=n, depth=4, init=[]))
+            mem.read_port(domain="comb" if d["dom"] == "comb" else d["dom"], addr=src[:2], data=tgt,
+                          en=Const(1, 1) if d["dom"] == "comb" else ctl, transparent_for=())
+            mods[d["mod"]].submodules += mem
+        elif d["kind"] == "iob":
+            pad = IOPort(n, name=f"pad{k}")
+            ports.append(pad)
+            mods[d["mod"]].submodules += IOBufferInstance(pad, i=tgt)
         else:
-            mods[d["mod"]].d[d["dom"]] += tgt.eq(src[:d["hi"] - d["lo"]] + k)
-    return mods[0], sigs + [src]
+            mods[d["mod"]].d[d["dom"]] += tgt.eq(src[:n] + k)
+    wraps = plan.get("wraps") or [None] * nmod
+    for k in range(nmod - 1, 0, -1):
+        sub = mods[k]
+        w = wraps[k]
+        if w == "reset":
+            sub = ResetInserter({"sync": ctl, "fast": ctl})(sub)
+        elif w == "enable":
+            sub = EnableInserter({"sync": ctl, "fast": ctl})(sub)
+        elif w == "rename":
+            sub = DomainRenamer({"sync": "fast"})(sub)
+        setattr(mods[plan["tree"][k]].submodules, f"m{k}", sub)
+    mods[0].domains.sync = ClockDomain("sync")
+    mods[0].domains.fast = ClockDomain("fast")
+    return mods[0], ports
 
 
 def run_driver_plan(plan, out, label="driver-plan"):
@@ -138,8 +209,19 @@ def run_driver_plan(plan, out, label="driver-plan"):
     out["hist"][key] = out["hist"].get(key, 0) + 1
     if got != exp:
         mech = {("accept", "conflict"): "legal-bit-disjoint-drivers-rejected", ("conflict", "accept"): "multiply-driven-bit-accepted"}.get((exp, got), f"driver-plan-wrong-outcome:{exp}->{got}")
-        inst = any(d["kind"] == "inst" for d in plan["drivers"])
-        out["violations"].append({"mechanism": mech + (":with-instance-output" if inst else ""), "detail": {"plan": plan, "expected": exp, "got": got}})
+        inst = any(d["kind"] != "logic" for d in plan["drivers"])
+        cast = any('"cast"' in json.dumps(d.get("form")) for d in plan["drivers"])
+        wrapped = any(plan.get("wraps") or [])
+        mech += ":with-instance-output" if inst else ""
+        mech += ":cast-in-target" if cast else ""
+        mech += ":transformed-module" if wrapped else ""
+        out["violations"].append({"mechanism": mech, "detail": {"plan": plan, "expected": exp, "got": got}})
+    for d in plan["drivers"]:
+        hkey = "driver-kind:" + d["kind"] + ("/" + d.get("form", ["plain"])[0] if d["kind"] == "logic" else "")
+        out["hist"][hkey] = out["hist"].get(hkey, 0) + 1
+    for w in plan.get("wraps") or []:
+        if w:
+            out["hist"]["module-wrapped:" + w] = out["hist"].get("module-wrapped:" + w, 0) + 1
     if len(plan["drivers"]) >= 2:
         out["fps"].add(fp(plan))
 
@@ -150,7 +232,7 @@ def enum_driver_plans():
             for same_mod in (True, False):
                 for d1 in DOMS:
                     for d2 in DOMS:
-                        for k2 in ("logic", "inst"):
+                        for k2 in ("logic",) + tuple(FOREIGN):
                             yield {"tree": [-1, 0], "widths": [3], "planted": None,
                                    "drivers": [{"sig": 0, "lo": lo1, "hi": hi1, "mod": 0, "dom": d1, "kind": "logic"},
                                                {"sig": 0, "lo": lo2, "hi": hi2, "mod": 0 if same_mod else 1, "dom": d2, "kind": k2}]}
@@ -297,32 +379,122 @@ def gen_dep_plan(rng):
             opw = rng.randrange(1, 4)
             return rng.choice([["eq", rand_expr(opw, depth - 1), rand_expr(opw, depth - 1)], ["any", rand_expr(opw, depth - 1)]])
         return rand_bits(n)
-    for _ in range(rng.randrange(1, 7)):
+    owner = {}
+    for _ in range(rng.randrange(1, 8)):
         s = rng.randrange(ninputs, nsig) if nsig > ninputs else None
         if s is None:
             break
-        free = [b for b in range(widths[s]) if (s, b) not in driven]
-        if not free:
-            continue
-        lo = rng.choice(free)
+        # a bit may be assigned several times ("default, then override"), always from the module that owns it
+        lo = rng.randrange(widths[s])
+        mod = owner.get((s, lo), rng.randrange(nmod))
         hi = lo + 1
-        while hi < widths[s] and (s, hi) not in driven and rng.random() < 0.6:
+        while hi < widths[s] and owner.get((s, hi), mod) == mod and rng.random() < 0.6:
             hi += 1
         for b in range(lo, hi):
-            driven.add((s, b))
-        cond = rand_expr(1, 1) if rng.random() < 0.3 else None
-        assigns.append({"tgt": [s, lo, hi], "expr": rand_expr(hi - lo, rng.randrange(0, 3)), "cond": cond, "mod": rng.randrange(nmod)})
+            owner[(s, b)] = mod
+        k = rng.random()
+        cond = rand_expr(1, 1) if k < 0.45 else None
+        a = {"tgt": [s, lo, hi], "expr": rand_expr(hi - lo, rng.randrange(0, 3)), "cond": cond, "mod": mod}
+        if k < 0.12:
+            a["else_expr"] = rand_expr(hi - lo, rng.randrange(0, 2))
+        assigns.append(a)
+    if rng.random() < 0.5:
+        # "default, then override": unconditional assignments placed before everything generated so far
+        defaults = []
+        for (s, b), mod in sorted(owner.items()):
+            if rng.random() < 0.5:
+                continue
+            if defaults and defaults[-1]["tgt"][0] == s and defaults[-1]["tgt"][2] == b and defaults[-1]["mod"] == mod and rng.random() < 0.7:
+                defaults[-1]["tgt"][2] = b + 1
+            else:
+                defaults.append({"tgt": [s, b, b + 1], "cond": None, "mod": mod})
+        for d in defaults:
+            d["expr"] = rand_expr(d["tgt"][2] - d["tgt"][1], rng.randrange(0, 2))
+        assigns = defaults + assigns
     return {"tree": tree, "widths": widths, "assigns": assigns}
 
 
+def gen_ladder_plan(rng):
+    """Bits of the same signals feeding each other through per-bit operators only (slices, Cat, ~ & | ^, Mux data
+    and select, If conditions) along a random total order of all driven bits, so that no bit reaches itself; half
+    of the plans then get one operand bit replaced by an arbitrary driven bit, which may or may not close a loop
+    (the dependency oracle decides which)."""
+    nmod = rng.randrange(1, 4)
+    tree = [-1] + [rng.randrange(0, k) for k in range(1, nmod)]
+    nsig = rng.randrange(2, 4)
+    widths = [rng.randrange(1, 4)] + [rng.randrange(2, 9) for _ in range(1, nsig)]
+    pool = [(s, b) for s in range(1, nsig) for b in range(widths[s])]
+    rng.shuffle(pool)
+    pos = {bit: k for k, bit in enumerate(pool)}
+    inputs = [(0, b) for b in range(widths[0])]
+    plant = rng.choice(pool) if rng.random() < 0.5 else None
+    planted = [False]
+
+    def pick(limit):
+        """a source bit whose position in the order is below `limit`"""
+        k = rng.randrange(-len(inputs), limit) if limit > 0 else rng.randrange(-len(inputs), 0)
+        return inputs[k] if k < 0 else pool[k]
+
+    def vec(bits):
+        picks = []
+        for bit in bits:
+            if plant == bit and not planted[0] and rng.random() < 0.5:
+                planted[0] = True
+                picks.append(rng.choice(pool))
+            else:
+                picks.append(pick(pos[bit]))
+        parts = []
+        for (s, b) in picks:        # merge runs of consecutive bits into slices
+            if parts and parts[-1][1] == s and parts[-1][3] == b:
+                parts[-1][3] = b + 1
+            else:
+                parts.append(["bits", s, b, b + 1])
+        return parts[0] if len(parts) == 1 else ["cat", parts]
+
+    def expr(bits, depth):
+        k = rng.random()
+        if depth == 0 or k < 0.25:
+            return vec(bits)
+        if k < 0.4:
+            return ["not", expr(bits, depth - 1)]
+        if k < 0.7:
+            return [rng.choice(["and", "or", "xor"]), expr(bits, depth - 1), expr(bits, depth - 1)]
+        s, b = pick(min(pos[bit] for bit in bits))
+        return ["mux", ["bits", s, b, b + 1], expr(bits, depth - 1), expr(bits, depth - 1)]
+    assigns = []
+    for s in range(1, nsig):
+        mod = rng.randrange(nmod)
+        lo = 0
+        while lo < widths[s]:
+            hi = rng.randrange(lo + 1, widths[s] + 1)
+            bits = [(s, b) for b in range(lo, hi)]
+            cond = None
+            if rng.random() < 0.25:
+                cs, cb = pick(min(pos[bit] for bit in bits))
+                cond = ["bits", cs, cb, cb + 1]
+            assigns.append({"tgt": [s, lo, hi], "expr": expr(bits, rng.randrange(0, 3)), "cond": cond,
+                            "mod": mod if rng.random() < 0.7 else rng.randrange(nmod)})
+            lo = hi
+    rng.shuffle(assigns)
+    return {"tree": tree, "widths": widths, "assigns": assigns, "ladder": True}
+
+
 def graph(plan, conservative):
+    """bit -> set of bits it depends on.  Conservative: the union over every assignment that mentions the bit.
+    True: assignments are applied in program order; an unconditional assignment (or an If/Else pair) that covers
+    the bit replaces what earlier assignments contributed, a conditional one adds to it."""
     g = {}
     for a in plan["assigns"]:
         s, lo, hi = a["tgt"]
         d = deps(a["expr"], conservative)
         c = frozenset().union(*deps(a["cond"], conservative)) if a["cond"] is not None else frozenset()
+        e = deps(a["else_expr"], conservative) if a.get("else_expr") is not None else None
         for k, b in enumerate(range(lo, hi)):
-            g.setdefault((s, b), set()).update(d[k] | c)
+            new = d[k] | c | (e[k] if e is not None else frozenset())
+            if not conservative and (a["cond"] is None or e is not None):
+                g[(s, b)] = set(new)
+            else:
+                g.setdefault((s, b), set()).update(new)
     return g
 
 
@@ -356,6 +528,9 @@ def build_dep_plan(plan):
         else:
             with m.If(build_expr(a["cond"], sigs)):
                 m.d.comb += sigs[s][lo:hi].eq(build_expr(a["expr"], sigs))
+            if a.get("else_expr") is not None:
+                with m.Else():
+                    m.d.comb += sigs[s][lo:hi].eq(build_expr(a["else_expr"], sigs))
     return mods[0], sigs
 
 
@@ -372,7 +547,7 @@ def ops_in(e, acc):
     return acc
 
 
-def run_dep_plan(plan, out):
+def run_dep_plan(plan, out, label="dependency-plan"):
     from amaranth.back import rtlil
     t, c = cyclic(graph(plan, False)), cyclic(graph(plan, True))
     if t:
@@ -391,7 +566,7 @@ def run_dep_plan(plan, out):
         if exc_origin(ex) != "repo":
             raise
         got = classify(ex)
-    key = f"dependency-plan:{exp}->{got}"
+    key = f"{label}:{exp}->{got}"
     out["hist"][key] = out["hist"].get(key, 0) + 1
     ops = set()
     for a in plan["assigns"]:
@@ -399,6 +574,16 @@ def run_dep_plan(plan, out):
         if a["cond"] is not None:
             ops.add("if-condition")
             ops_in(a["cond"], ops)
+        if a.get("else_expr") is not None:
+            ops.add("else-branch")
+            ops_in(a["else_expr"], ops)
+    seen = set()
+    for a in plan["assigns"]:
+        s_, lo_, hi_ = a["tgt"]
+        bits = {(s_, b) for b in range(lo_, hi_)}
+        if bits & seen:
+            ops.add("reassigned-bit")
+        seen |= bits
     if exp == "cycle":
         for o in ops:
             out["hist"]["cycle-design-uses:" + o] = out["hist"].get("cycle-design-uses:" + o, 0) + 1
@@ -414,7 +599,7 @@ def run_dep_plan(plan, out):
 
 
 def shards(tier, seed):
-    n = 6400 if tier == "quick" else 256000
+    n = 16000 if tier == "quick" else 320000
     specs = [{"kind": "sample", "seed": seed, "shard": i, "n": n // NSHARDS} for i in range(NSHARDS)]
     specs.append({"kind": "enum"})
     return specs
@@ -432,6 +617,9 @@ def run_shard(spec):
             if k % 2 == 0:
                 plan = gen_driver_plan(rng)
                 run_driver_plan(plan, out)
+            elif k % 4 == 1:
+                plan = gen_ladder_plan(rng)
+                run_dep_plan(plan, out, label="bit-ladder-plan")
             else:
                 plan = gen_dep_plan(rng)
                 if plan["assigns"]:
@@ -449,7 +637,8 @@ def run_shard(spec):
 def finalize(m, tier, seed):
     h = m["hist"]
     if not m["violations"]:
-        for k in ("driver-plan:conflict->conflict", "driver-plan:accept->accept", "dependency-plan:cycle->cycle", "dependency-plan:accept->accept"):
+        for k in ("driver-plan:conflict->conflict", "driver-plan:accept->accept", "dependency-plan:cycle->cycle", "dependency-plan:accept->accept",
+                  "bit-ladder-plan:cycle->cycle", "bit-ladder-plan:accept->accept"):
             if h.get(k, 0) == 0:
                 m["inconclusive"].append(f"outcome class never observed: {k}")
 
@@ -461,7 +650,7 @@ def replay(rec):
     if "drivers" in d["plan"]:
         run_driver_plan(d["plan"], out)
     else:
-        run_dep_plan(d["plan"], out)
+        run_dep_plan(d["plan"], out, label="bit-ladder-plan" if d["plan"].get("ladder") else "dependency-plan")
     print(json.dumps(out["violations"][:2], indent=1, default=str)[:2500])
     print("replay:", "VIOLATION reproduced" if out["violations"] else "no violation on this tree")
     return 1 if out["violations"] else 0
